@@ -17,7 +17,9 @@ import sys
 
 def _mk(case):
     from synkit.CRN.DAG.syncrn import SynCRN
-    kw = dict(rules=list(case["rules"]), repeats=case["repeats"], explicit_h=False, implicit_temp=True,
+    # the hydrogen / strategy options must reach the worker processes like everything else: varied by the "hopts" cases
+    kw = dict(rules=list(case["rules"]), repeats=case["repeats"], explicit_h=case.get("explicit_h", False),
+              implicit_temp=case.get("implicit_temp", True),
               max_components=case.get("max_components", 3), use_frontier=case.get("use_frontier", True),
               dedup_across_rules=case.get("dedup_across_rules", False), skip_no_change=case.get("skip_no_change", True),
               allow_empty_side=case.get("allow_empty_side", False), dedup_delta=case.get("dedup_delta", True),
@@ -26,6 +28,8 @@ def _mk(case):
         kw["max_mixtures_per_rule_step"] = case["max_mix"]
     if case.get("max_tasks") is not None:
         kw["max_tasks_per_step"] = case["max_tasks"]
+    if case.get("strategy") is not None:
+        kw["strategy"] = case["strategy"]
     return SynCRN(**kw)
 
 
